@@ -9,7 +9,7 @@
 From Coq Require Import List NArith ZArith Bool Sorted Permutation.
 Import ListNotations.
 From SV Require Fmt.CmdSeq Fmt.CmdSeqProofs Fmt.ScenesImage Fmt.ScenesImageProofs Fmt.ScenesImageCfg Fmt.ScenesImageCfgProofs
-  Fmt.SmdTpl Fmt.SmdTplProofs Fmt.SmdWords Fmt.TextFields Fmt.TextFieldsProofs Fmt.SndStacks Fmt.SndStacksProofs Fmt.VmtQuote Fmt.VmtQuoteProofs Fmt.TextLines Fmt.TextLinesProofs Fmt.ChoreoBin Fmt.ChoreoBinProofs Fmt.SceneSummary KV.KvBase KV.KvLex KV.KvSym KV.KvLexProofs.
+  Fmt.SmdTpl Fmt.SmdTplProofs Fmt.SmdWords Fmt.TextFields Fmt.TextFieldsProofs Fmt.SndStacks Fmt.SndStacksProofs Fmt.VmtQuote Fmt.VmtQuoteProofs Fmt.TextLines Fmt.TextLinesProofs Fmt.ChoreoBin Fmt.ChoreoBinProofs Fmt.SceneSummary Fmt.BspDedup Fmt.C20KeyTables Fmt.C20KeyTablesProofs KV.KvBase KV.KvLex KV.KvSym KV.KvLexProofs.
 
 (** * Command sequences *)
 Module CS := Fmt.CmdSeq.
@@ -425,3 +425,63 @@ Proof. exact SS.summary_order_independent. Qed.
 (** milliseconds are monotone in the time *)
 Theorem c20_summary_ms_monotone : forall a b, (a <= b)%Z -> (SS.ms a <= SS.ms b)%Z.
 Proof. exact SS.ms_mono. Qed.
+
+(** * Keyed tables of the writers (round 4): bone numbering through [dict[Bone, int]], the string pool, particle systems by
+    name, scenes.image slots.  The table is C11's [dd_run] (Fmt/BspDedup.v, imported); the census [kt_tables] / [kt_classes] is
+    regenerated from the six modules (Gen/KeyTables_gen.v), the KEY of an object-keyed table being read from the [__eq__] /
+    [__hash__] of the key's class. *)
+Module KT := Fmt.C20KeyTables.
+Module KTP := Fmt.C20KeyTablesProofs.
+Module DD := Fmt.BspDedup.
+From Coq Require Import String.
+Open Scope string_scope.
+Open Scope list_scope.
+
+(** every table of a census passing [tables_ok] (the instance obligation on [kt_tables]): whatever is requested, in whatever
+    order, the record stored under the number handed out for an object is that object's record *)
+Theorem c20_keyed_table_roundtrip : forall (ts : list DD.dedup_table) name adm fields k tr l xs,
+  KT.tables_ok ts = true -> In (name, adm, fields, k) ts ->
+  (forall v, tr "" v = v) ->
+  (forall o, In o (l ++ xs) -> map fst (snd o) = fields) ->
+  (forall o o', In o (l ++ xs) -> In o' (l ++ xs) -> fst o = fst o' -> o = o') ->
+  (forall t, In t adm -> forall o o' f v v', In o (l ++ xs) -> In o' (l ++ xs) ->
+     DD.assoc_f f (snd o) = Some v -> DD.assoc_f f (snd o') = Some v' -> tr t v = tr t v' -> v = v') ->
+  forall s' is, DD.dd_run (DD.key_sem tr k) DD.keyval_eqb (DD.dd_init (DD.key_sem tr k) l) xs = (s', is) ->
+  Forall2 (fun o i => DD.read_back (fst s') i = Some (snd o)) xs is /\ exists ext, fst s' = l ++ ext.
+Proof. exact KTP.keyed_table_roundtrip. Qed.
+
+(** hand-written comparison methods passing [kcmp_ok]: objects the dict treats as equal also hash equal *)
+Theorem c20_class_equal_objects_hash_equal : forall eq ne hash tr (o o' : DD.obj),
+  KT.kcmp_ok (KT.CFields eq ne hash) = true -> (forall v, tr "" v = v) ->
+  DD.key_sem tr (DD.KFields eq) o = DD.key_sem tr (DD.KFields eq) o' ->
+  DD.key_sem tr (DD.KFields hash) o = DD.key_sem tr (DD.KFields hash) o'.
+Proof. exact KTP.class_equal_objects_hash_equal. Qed.
+
+(** the class of seeded fault c20_6: [Bone.__eq__] / [__hash__] through [name.casefold()] are consistent with each other, but
+    "Weapon" and "weapon" get one node number, under which the reader finds "Weapon"; with the exact name both are kept *)
+Theorem c20_smd_bone_key_casefold_refuted :
+  KT.kcmp_ok KTP.bone_casefold = true /\ KT.kcmp_exact KTP.bone_casefold = false /\
+  DD.dedup_ok ("smd.Mesh.export:bone_indexes", [], ["name"], KT.keyspec_of_class KTP.bone_casefold) = false /\
+  (let k := DD.key_sem KT.tr_case (KT.keyspec_of_class KTP.bone_casefold) in
+   let '(s, is) := DD.dd_run k DD.keyval_eqb (DD.dd_init k []) [KT.bone_Weapon; KT.bone_weapon] in
+   is = [0; 0]%nat /\ DD.read_back (fst s) 0 = Some (snd KT.bone_Weapon) /\ snd KT.bone_Weapon <> snd KT.bone_weapon) /\
+  KT.kcmp_ok KTP.bone_exact = true /\ KT.kcmp_exact KTP.bone_exact = true /\
+  DD.dedup_ok ("smd.Mesh.export:bone_indexes", [], ["name"], KT.keyspec_of_class KTP.bone_exact) = true /\
+  (let k := DD.key_sem KT.tr_case (KT.keyspec_of_class KTP.bone_exact) in
+   let '(s, is) := DD.dd_run k DD.keyval_eqb (DD.dd_init k []) [KT.bone_Weapon; KT.bone_weapon; KT.bone_Weapon] in
+   is = [0; 1; 0]%nat /\ DD.read_back (fst s) 1 = Some (snd KT.bone_weapon)).
+Proof. exact KTP.bone_key_casefold_refuted. Qed.
+
+(** [__eq__] folding case with an exact [__hash__] is rejected (equal objects, different hashes); the converse is accepted *)
+Theorem c20_hash_finer_than_eq_refuted :
+  KT.kcmp_ok (KT.CFields [("name", "casefold")] [("name", "casefold")] [("name", "")]) = false /\
+  KT.kcmp_ok (KT.CFields [("name", "")] [("name", "")] [("name", "casefold")]) = true.
+Proof. exact KTP.hash_finer_than_eq_refuted. Qed.
+
+(** a string pool keyed by the casefolded string, a particle table keyed more coarsely than the reader keys systems *)
+Theorem c20_pool_key_casefold_refuted :
+  DD.dedup_ok ("choreo.save_scenes_image_sync:add_to_pool", [], ["<value>"], DD.KFields [("<value>", "casefold")]) = false /\
+  DD.dedup_ok ("choreo.save_scenes_image_sync:add_to_pool", [], ["<value>"], DD.KValue) = true /\
+  DD.dedup_ok ("particles.Particle.export:name_to_elem", ["casefold"], ["name"], DD.KFields [("name", "casefold")]) = true /\
+  DD.dedup_ok ("particles.Particle.export:name_to_elem", ["casefold"], ["name"], DD.KFields [("name", "strip+casefold")]) = false.
+Proof. exact KTP.pool_key_casefold_refuted. Qed.
